@@ -150,4 +150,40 @@ def Slots.write [DecidableEq κ] (st : Slots κ ν) (k : κ) (v : ν) : Slots κ
 def runWrites [DecidableEq κ] (st : Slots κ ν) (ws : List (κ × ν)) : Slots κ ν :=
   ws.foldl (fun st w => st.write w.1 w.2) st
 
+/-! ### how `_multithread_rebuild` stores a result: the objects, not only the values -/
+
+/-- the three setters of tensordict/_td.py:TensorDict._multithread_rebuild (plain TensorDict result) -/
+inductive SetMode where
+  /-- `result._tensordict[key] = item`: the key is bound to the new tensor object -/
+  | bind
+  /-- `result._set_str(key, item, inplace=BEST_ATTEMPT_INPLACE)`: the values are copied **into** the tensor the key holds -/
+  | copyInto
+  /-- `result._set_str(key, item, inplace=False)`: validated, then bound -/
+  | replace
+  deriving Repr, DecidableEq
+
+/-- `elif checked and isinstance(result, TensorDict) and (inplace is not True): … else: local_inplace = BEST_ATTEMPT_INPLACE if inplace else False` -/
+def setMode (checked inplace : Bool) : SetMode :=
+  if checked && !inplace then .bind else if inplace then .copyInto else .replace
+
+/-- the seeded variant: the guard `inplace is not True` is gone -/
+def setModeNoGuard (checked inplace : Bool) : SetMode :=
+  if checked then .bind else if inplace then .copyInto else .replace
+
+/-- a tensordict as objects: leaf `i` is the tensor object living in cell `ptr[i]` of the heap (other handles on that memory —
+    a view, another mapping of the file, a second handle on the shared segment — read the same cell) -/
+structure Objs (β : Type) where
+  heap : Slots Nat β
+  ptr : List Nat
+  next : Nat
+
+def setLeaf (m : SetMode) (o : Objs β) (i : Nat) (v : β) : Objs β :=
+  match m with
+  | .copyInto => { o with heap := o.heap.write (o.ptr.getD i 0) v }
+  | _ => { heap := o.heap.write o.next v, ptr := o.ptr.set i o.next, next := o.next + 1 }
+
+/-- the setters run as the results arrive: `(leaf index, result)` in that order -/
+def rebuildObjs (m : SetMode) (o : Objs β) (writes : List (Nat × β)) : Objs β :=
+  writes.foldl (fun o w => setLeaf m o w.1 w.2) o
+
 end TdVerif.C12
